@@ -14,6 +14,13 @@
 //!   * drawing the same image again on the same handler emits identical bytes.
 //! A second, fresh handler draws the same views in another order (different `HashMap`
 //! seeds, different cache history) and is held to the same per-draw oracle.
+//! Histories of the long-lived handler besides redraw / erase+redraw:
+//!   * pictures that share the row-major pixel sequence of a view but not its shape (the same
+//!     pixel list laid out `w' x h'` with `w'*h' == w*h`, `h' >= 6`; a fresh buffer or a window
+//!     cropped out of a larger one) are drawn after the view (and, on a fresh handler, before
+//!     it): each is decoded and compared with ITS OWN source,
+//!   * rarely, more than 256 other distinct (tiny) pictures go through the handler between the
+//!     first draw of the views and their redraw, which must still be byte-identical.
 
 use crate::engine::*;
 use proptest::collection::vec;
@@ -69,6 +76,33 @@ pub struct Case {
     /// non-blocking pipe); the failed call's outcome is ignored
     #[serde(default)]
     pub refused_first: Option<u16>,
+    /// further pictures drawn on the first handler right after the views: the pixel sequence
+    /// of one view in another shape
+    #[serde(default)]
+    pub reshapes: Vec<Reshape>,
+    /// many other distinct pictures are drawn on the first handler before the views are drawn
+    /// once more
+    #[serde(default)]
+    pub long_history: Option<LongHistory>,
+}
+
+/// A picture with the row-major pixel sequence of view `of` (mod number of views) laid out in
+/// another shape `w' x h'` (`w'*h' == w*h`, `h' >= 6`, chosen by `pick` among all such shapes).
+#[derive(Clone, Copy, Debug, PartialEq, Eq, Serialize, Deserialize)]
+pub struct Reshape {
+    pub of: u8,
+    pub pick: u16,
+    /// None: a fresh buffer of exactly that shape; Some([top, left, bottom, right]) (each mod 4):
+    /// a window cropped out of a buffer that is larger by these margins
+    pub window: Option<[u8; 4]>,
+}
+
+/// `fillers` distinct pictures of 1..=3 columns x 6 rows (two or more colours each; `salt`
+/// varies their colours) drawn between the first draw of the views and a late redraw.
+#[derive(Clone, Copy, Debug, PartialEq, Eq, Serialize, Deserialize)]
+pub struct LongHistory {
+    pub fillers: u16,
+    pub salt: u8,
 }
 
 // ---------------------------------------------------------------------------------------
@@ -138,6 +172,52 @@ fn resolve(spec: CropSpec, h: usize, w: usize) -> (usize, usize, usize, usize) {
     let cl = 1 + f(spec.width) * (w - 1) / 1000;
     let c0 = f(spec.left) * (w - cl) / 1000;
     (r0, r0 + rl, c0, c0 + cl)
+}
+
+/// All shapes `(h', w')` other than `(h, w)` with `h'*w' == h*w` and `h' >= 6`.
+fn other_shapes(h: usize, w: usize) -> Vec<(usize, usize)> {
+    let n = h * w;
+    (6..=n).filter(|nh| n % nh == 0 && *nh != h).map(|nh| (nh, n / nh)).collect()
+}
+
+/// Library image showing exactly `px`: a buffer of that shape, or (`window` = margins
+/// top, left, bottom, right, each mod 4) a window cropped out of a larger buffer whose margin
+/// pixels are other pixels of the same picture.
+fn build_image(px: &Pixels, window: Option<[u8; 4]>) -> Result<Image, Fail> {
+    let m = window.unwrap_or([0; 4]).map(|v| (v % 4) as usize);
+    let (top, left) = (m[0], m[1]);
+    let (bh, bw) = (px.h + m[0] + m[2], px.w + m[1] + m[3]);
+    let img = guard_val(|| {
+        Image::from(SurfaceOwned::new_with(Size { height: bh, width: bw }, |pos| {
+            let inside = pos.row >= top && pos.row < top + px.h && pos.col >= left && pos.col < left + px.w;
+            let [r, g, b, a] = if inside {
+                px.px[(pos.row - top) * px.w + (pos.col - left)]
+            } else {
+                px.px[((pos.row * bw + pos.col) * 7 + 3) % px.px.len()]
+            };
+            RGBA::new(r, g, b, a)
+        }))
+    })?;
+    if window.is_none() {
+        return Ok(img);
+    }
+    guard_val(|| img.crop(top..top + px.h, left..left + px.w))
+}
+
+/// The `k`-th filler picture of a long history: 6 rows x 1..=3 columns, opaque, pairwise
+/// distinct for different `k` (the first pixel encodes `k`), at least two colours.
+fn filler(k: usize, salt: u8) -> Pixels {
+    let w = 1 + k % 3;
+    let px = (0..6 * w)
+        .map(|j| {
+            if j == 0 {
+                [(k & 0xff) as u8, (k >> 8 & 0xff) as u8, salt, 255]
+            } else {
+                [salt.wrapping_add((j * 41) as u8), (k * 7 & 0xff) as u8, 255 - (k & 0xff) as u8, 255]
+            }
+        })
+        .collect();
+    Pixels { h: 6, w, px }
 }
 
 /// round(c / 2.55): sixel channel value of an 8-bit channel (never a tie: c*20/51 has
@@ -769,6 +849,77 @@ pub fn check_case(c: &Case) -> Outcome {
         stats.push(check_draw(&bytes, &v.px, &v.exp, &v.ctx)?);
         first.push(bytes);
     }
+    // same pixel sequence, other shape: different pictures (another declared size, another
+    // arrangement) although every pixel value, their order and their number agree; drawn on
+    // the handler that has already drawn the view they derive from
+    struct Shaped {
+        img: Image,
+        px: Pixels,
+        exp: Expect,
+        ctx: String,
+        of: usize,
+        window: bool,
+    }
+    let mut shaped: Vec<Shaped> = Vec::new();
+    let mut no_other_shape = false;
+    for r in c.reshapes.iter().take(3) {
+        let of = r.of as usize % views.len();
+        let src = &views[of];
+        let alts = other_shapes(src.px.h, src.px.w);
+        if alts.is_empty() {
+            no_other_shape = true;
+            continue;
+        }
+        let (nh, nw) = alts[r.pick as usize % alts.len()];
+        let px = Pixels {
+            h: nh,
+            w: nw,
+            px: src.px.px.clone(),
+        };
+        let img = build_image(&px, r.window)?;
+        let ctx = format!(
+            "{} [its {} pixels, same row-major order, laid out {}x{} (w x h){}]",
+            src.ctx,
+            px.px.len(),
+            nw,
+            nh,
+            match r.window {
+                Some(m) => format!(", a window cropped out of a buffer with margins t/l/b/r {:?}", m.map(|v| v % 4)),
+                None => String::new(),
+            }
+        );
+        let exp = expect(&px, c.bg);
+        shaped.push(Shaped {
+            img,
+            px,
+            exp,
+            ctx,
+            of,
+            window: r.window.is_some(),
+        });
+    }
+    for s in &shaped {
+        let ctx = format!("{} [drawn after that view on the same handler]", s.ctx);
+        let bytes = draw(&mut h1, &s.img, &ctx)?;
+        stats.push(check_draw(&bytes, &s.px, &s.exp, &ctx)?);
+    }
+    if !shaped.is_empty() {
+        // the other order on a fresh handler: reshaped pictures first, then the views they
+        // derive from
+        let mut h4 = SixelImageHandler::new(bg);
+        for s in shaped.iter().rev() {
+            let ctx = format!("{} [fresh handler, drawn before that view]", s.ctx);
+            let bytes = draw(&mut h4, &s.img, &ctx)?;
+            check_draw(&bytes, &s.px, &s.exp, &ctx)?;
+        }
+        let sources: BTreeSet<usize> = shaped.iter().map(|s| s.of).collect();
+        for of in sources {
+            let v = &views[of];
+            let ctx = format!("{} [drawn after picture(s) with the same pixel sequence in another shape]", v.ctx);
+            let bytes = draw(&mut h4, &v.img, &ctx)?;
+            check_draw(&bytes, &v.px, &v.exp, &ctx)?;
+        }
+    }
     for (v, bytes) in views.iter().zip(&first) {
         let again = draw(&mut h1, &v.img, &v.ctx)?;
         if &again != bytes {
@@ -804,6 +955,35 @@ pub fn check_case(c: &Case) -> Outcome {
                     excerpt(&again, at)
                 ),
             ));
+        }
+    }
+    // long history: many other distinct pictures go through the handler, then every view is
+    // drawn once more and still emits the bytes of its first draw
+    if let Some(lh) = c.long_history {
+        let n = (lh.fillers as usize).min(2000);
+        for k in 0..n {
+            let px = filler(k, lh.salt);
+            let img = build_image(&px, None)?;
+            let ctx = format!("filler picture #{k} of {n} ({}x6, salt {}) of a long history on the first handler", px.w, lh.salt);
+            let exp = expect(&px, c.bg);
+            let bytes = draw(&mut h1, &img, &ctx)?;
+            check_draw(&bytes, &px, &exp, &ctx)?;
+        }
+        for (v, bytes) in views.iter().zip(&first) {
+            let again = draw(&mut h1, &v.img, &v.ctx)?;
+            if &again != bytes {
+                let at = again.iter().zip(bytes).position(|(a, b)| a != b).unwrap_or(again.len().min(bytes.len()));
+                return Err(Fail::new(
+                    "repeat/bytes-differ-after-long-history",
+                    format!(
+                        "{}: drawn again on the same handler after {n} other distinct pictures (1..3 x 6 pixels each) were drawn on it: the bytes differ from the first draw ({} vs {} bytes), first difference {}",
+                        v.ctx,
+                        again.len(),
+                        bytes.len(),
+                        excerpt(&again, at)
+                    ),
+                ));
+            }
         }
     }
     // short-lived image objects on a long-lived handler (an animation: a fresh Image per frame,
@@ -874,6 +1054,11 @@ pub fn check_case(c: &Case) -> Outcome {
         .label_if(any(&|v| v.cropped == 1), "view:crop")
         .label_if(any(&|v| v.cropped == 2), "view:nested-crop")
         .label_if(views.len() >= 2, "views>=2")
+        .label_if(!shaped.is_empty(), "reshape:same-pixels-other-shape")
+        .label_if(shaped.iter().any(|s| s.window), "reshape:as-cropped-window")
+        .label_if(shaped.iter().any(|s| s.exp.exact_regime()), "reshape:exact")
+        .label_if(no_other_shape, "reshape:no-other-shape")
+        .label_if(c.long_history.is_some_and(|lh| lh.fillers > 256), "history:long(>256-other-pictures-then-redraw)")
         .label_if(any(&|v| v.px.h % 6 != 0), "h%6!=0")
         .label_if(any(&|v| v.px.w < 4), "w<4")
         .label_if(stats.iter().any(|s| s.bands >= 2), "enc:bands>=2")
@@ -1082,6 +1267,28 @@ fn bg() -> BoxedStrategy<Option<[u8; 3]>> {
     .boxed()
 }
 
+/// Histories of the long-lived handler beyond redraw / erase+redraw: pictures with a view's
+/// pixel sequence in another shape (4 cases of 10), rarely a long run of other pictures
+/// before a redraw (3 cases of 100).
+fn extras() -> BoxedStrategy<(Vec<Reshape>, Option<LongHistory>)> {
+    let reshape = (
+        0u8..3,
+        any::<u16>(),
+        proptest::option::weighted(0.4, proptest::array::uniform4(0u8..4)),
+    )
+        .prop_map(|(of, pick, window)| Reshape { of, pick, window });
+    let reshapes = prop_oneof![
+        6 => Just(Vec::new()),
+        3 => vec(reshape.clone(), 1..=1),
+        1 => vec(reshape, 2..=2),
+    ];
+    let long = proptest::option::weighted(
+        0.03,
+        (260u16..=400, any::<u8>()).prop_map(|(fillers, salt)| LongHistory { fillers, salt }),
+    );
+    (reshapes, long).boxed()
+}
+
 fn case_strategy(tier: Tier) -> BoxedStrategy<Case> {
     let general = (bg(), palette_general())
         .prop_flat_map(move |(bg, palette)| {
@@ -1090,7 +1297,7 @@ fn case_strategy(tier: Tier) -> BoxedStrategy<Case> {
             (dims(tier, min), Just(bg), Just(palette))
         })
         .prop_flat_map(|((h, w), bg, palette)| {
-            (pattern(h, w, false), views(), proptest::option::weighted(0.25, prop_oneof![Just(0u16), 1u16..40, 40u16..3000])).prop_map(move |(pattern, views, refused_first)| Case {
+            (pattern(h, w, false), views(), proptest::option::weighted(0.25, prop_oneof![Just(0u16), 1u16..40, 40u16..3000]), extras()).prop_map(move |(pattern, views, refused_first, (reshapes, long_history))| Case {
                 h,
                 w,
                 bg,
@@ -1098,6 +1305,8 @@ fn case_strategy(tier: Tier) -> BoxedStrategy<Case> {
                 pattern,
                 views,
                 refused_first,
+                reshapes,
+                long_history,
             })
         });
     // 256 opaque colours (distinct at 0-100 resolution) one of which is the reduced
@@ -1118,7 +1327,7 @@ fn case_strategy(tier: Tier) -> BoxedStrategy<Case> {
                 })
                 .collect();
             palette.push([hidden[0], hidden[1], hidden[2], 0]);
-            (pattern(h, w, true), views()).prop_map(move |(pattern, views)| Case {
+            (pattern(h, w, true), views(), extras()).prop_map(move |(pattern, views, (reshapes, long_history))| Case {
                 h,
                 w,
                 bg: Some(bg),
@@ -1126,6 +1335,8 @@ fn case_strategy(tier: Tier) -> BoxedStrategy<Case> {
                 pattern,
                 views,
                 refused_first: None,
+                reshapes,
+                long_history,
             })
         });
     prop_oneof![12 => general, 1 => edge].boxed()
@@ -1170,7 +1381,8 @@ impl Property for C12 {
          (index vectors have any length >= 1 and are read cyclically, so they shrink by removal); \
          special class: 256 colours one of which is both an opaque colour and the background showing through fully transparent pixels; bg in {None, colour}; \
          1..=3 views (full image, crop, crop of a crop; >= 6 rows, >= 1 column) drawn in order on one handler, all drawn a second time (bytes must be identical), \
-         erased and drawn once more (bytes must equal the first draw), three short-lived images of the first view's size (its pixels rotated by 0-2 rows, each a fresh allocation dropped after its draw) drawn on a third handler, and all views drawn in reverse order on a fresh handler (in one case of four each of those draws is preceded by a draw of the same view into a writer that fails after 0-2999 bytes). Every draw is decoded by an independent sixel interpreter and checked for well-formedness, declared size, \
+         in 4 cases of 10 one or two further pictures are drawn on that handler between the first and the second draws of the views: the row-major pixel sequence of one of the views laid out in another shape (w' x h' with w'*h' = w*h, h' >= 6, any such shape; a fresh buffer, or in 4 of 10 a window cropped out of a buffer larger by 0-3 pixels per side), each decoded and compared with its own source, and on a further fresh handler the same pictures are drawn before the views they derive from; \
+         all views erased and drawn once more (bytes must equal the first draw), in 3 cases of 100 then 260-400 pairwise distinct filler pictures (1..3 columns x 6 rows, >= 2 colours, each held to the per-draw oracle) are drawn on that handler and every view is drawn yet again (bytes must still equal the first draw), three short-lived images of the first view's size (its pixels rotated by 0-2 rows, each a fresh allocation dropped after its draw) drawn on a third handler, and all views drawn in reverse order on a fresh handler (in one case of four each of those draws is preceded by a draw of the same view into a writer that fails after 0-2999 bytes). Every draw is decoded by an independent sixel interpreter and checked for well-formedness, declared size, \
          registers, full coverage, nothing outside, and pixel-exactness when colours fit. \
          non-trivial = some draw has >= 2 bands and >= 2 colours painted in one band and a repeat introducer with count >= 4 on a non-empty sixel"
             .into()
@@ -1186,6 +1398,8 @@ impl Property for C12 {
             "the subsampling threshold is taken from ColorPalette::from_image: height*width/(256*100) >= 2 on the height-truncated image, i.e. >= 51 200 pixels; at or above it only the structural checks apply".into(),
             "with more than 256 colours only structure (well-formedness, size, registers, coverage) is checked; closeness of the dithered picture is not part of the statement".into(),
             "the configured background is opaque in all generated cases".into(),
+            "two pictures with the same row-major pixel sequence but different width/height are different images: each draw is held to the oracle of its own source (declared size = its own width x truncated height, decoded picture = its own arrangement), whatever was drawn on the handler before".into(),
+            "'drawing the same image again emits identical bytes' is taken over any history of the handler ('repeated draws on one handler'), in particular after an arbitrary number of other pictures were drawn in between; no bound on that number is stated, 260-400 is what is explored".into(),
         ]
     }
 }
